@@ -74,6 +74,11 @@ func roImage(variant string) *roObject {
 		ti = largeImage
 		dg = map[string][]byte{"m1": ti.digest}
 		file = attachSignatures(ti, mk("k1", "A"))
+	case "mixedtypes":
+		// the certificate table holds an entry of another WIN_CERTIFICATE type (0x0EF0, PKCS#1 v1.5) in front of the Authenticode signature
+		file = attachSignatures(ti, prbytes("pkcs115-entry", 300), mk("k1", "A"))
+		va := int(binary.LittleEndian.Uint32(file[ti.img.dd4:]))
+		binary.LittleEndian.PutUint16(file[va+6:], 0x0EF0)
 	case "signed":
 		file = attachSignatures(ti, mk("k1", "A"))
 	case "twosigs":
